@@ -184,6 +184,9 @@ void Runner<A>::doReject(const sim::Op &op) {
     if (env.trace) fprintf(stderr, "  reject %s a=%u b=%u flag=%d (n=%u)\n", cell.c_str(), a, b, (int)flag, n);
     const uint64_t before = sweepDigest(*g, m);
     if (!pending.empty()) return; // state already wrong: charged by the sweep oracles
+    // operator== sees state no other observer can address (e.g. a map entry under an out-of-range key): a copy taken before
+    // the rejected call must still compare equal afterwards
+    std::unique_ptr<G> twin(m.n <= 128 ? new G(*g) : nullptr);
     int outcome = 0; // 0 returned normally, 1 documented type, 2 other std::exception, 3 something else
     std::string what;
     try {
@@ -208,6 +211,11 @@ void Runner<A>::doReject(const sim::Op &op) {
     if (outcome != 1) mismatch(REJECT, "wrong_exception:" + en.name, cell + " threw " + what);
     const uint64_t after = sweepDigest(*g, m);
     if (after != before) mismatch(REJECT, "state_changed:" + en.name, cell);
+    else if (twin) {
+        try {
+            if (!(*g == *twin) || !(*twin == *g)) mismatch(REJECT, "not_equal_to_pre_call_copy:" + en.name, cell);
+        } catch (const std::exception &ex) { mismatch(REJECT, "not_equal_to_pre_call_copy:" + en.name, ex.what()); }
+    }
 }
 
 } // namespace gs
